@@ -170,7 +170,8 @@ def spell(rng, ident, p=0.35):
 
 
 def gen_design(rng, size="small", trigger=None):
-    """size: small | medium | large ; trigger: None | 'design_case' | 'after_design' | 'amp_bus' | 'glob' | 'bracket_tail' | 'dup_base_bit'"""
+    """size: small | medium | large ; trigger: None | 'design_case' | 'after_design' | 'amp_bus' | 'glob' | 'bracket_tail' | 'dup_base_bit' |
+    'scalar_like_bus' | 'shared_stem'"""
     S = {"small": dict(libs=(1, 2), leaf=(1, 2), mid=(1, 2), kids=3, ports=3, width=3),
          "medium": dict(libs=(1, 3), leaf=(1, 4), mid=(1, 5), kids=5, ports=5, width=5),
          "large": dict(libs=(2, 4), leaf=(2, 6), mid=(3, 9), kids=9, ports=7, width=9)}[size]
@@ -308,8 +309,14 @@ def gen_nets(rng, cell, libs, S, trigger):
             width = rng.randint(1, S["width"])
             idxs = [base + j for j in range(width)]
             idxs = [i for i in idxs if rng.random() < 0.8] or [base]
+            # the reader takes the index from the NAME; the identifier only has to look indexed: now and
+            # then the identifier's index differs from the name's
+            off = rng.choice([1, 7, 100]) if rng.random() < 0.12 else 0
             for i in idxs:
-                nets.append({"kind": "bit", "bus": k, "idx": i, "pins": take()})
+                bn = {"kind": "bit", "bus": k, "idx": i, "pins": take()}
+                if off:
+                    bn["iidx"] = i + off
+                nets.append(bn)
     if trigger == "amp_bus":
         k = len(cell["buses"])
         while True:
@@ -324,6 +331,34 @@ def gen_nets(rng, cell, libs, S, trigger):
         cell["buses"].append({"id": ident, "orig": orig})
         for i in rng.sample(range(0, 4), rng.randint(2, 3)):
             nets.append({"kind": "bit", "bus": k, "idx": i, "pins": take()})
+    tail = []
+    if trigger == "scalar_like_bus":
+        # a scalar net that carries the NAME (or only the identifier) of a bus assembled from bit nets, declared
+        # after or before the bits: the text declares two different nets
+        k = len(cell["buses"])
+        ident = gen_ident(rng, ui, amp_ok=False)
+        while ident in un:
+            ident = gen_ident(rng, ui, amp_ok=False)
+        un.add(ident)
+        cell["buses"].append({"id": ident, "orig": ident})
+        bits = [{"kind": "bit", "bus": k, "idx": i, "pins": take()} for i in (0, 1)]
+        if rng.random() < 0.6:
+            sc_nm = {"id": gen_ident(rng, ui, amp_ok=False), "orig": ident}       # same name, other identifier
+        else:
+            other = gen_orig(rng, un, ident, for_net=True)
+            sc_nm = {"id": ident, "orig": other}                                   # same identifier, other name
+        sc = {"kind": "scalar", "nm": sc_nm, "pins": take(), "props": []}
+        tail = bits + [sc] if rng.random() < 0.6 else [sc] + bits
+    if trigger == "shared_stem":
+        # two buses with different names whose bit identifiers share one stem
+        k = len(cell["buses"])
+        stem = gen_ident(rng, ui, amp_ok=False)
+        n1 = gen_ident(rng, ui, amp_ok=False)
+        n2 = gen_ident(rng, ui, amp_ok=False)
+        un.update([n1, n2])
+        cell["buses"] += [{"id": stem, "orig": n1}, {"id": stem, "orig": n2}]
+        tail = [{"kind": "bit", "bus": k, "idx": 0, "pins": take()},
+                {"kind": "bit", "bus": k + 1, "idx": 1, "pins": take()}]
     if trigger == "dup_base_bit":
         # the lowest bit of a bus is declared twice (float_demo.edf does this): both declarations are the
         # same net, their pins are joined; the other bits keep their positions
@@ -349,6 +384,7 @@ def gen_nets(rng, cell, libs, S, trigger):
         nets.append({"kind": "scalar", "nm": {"id": ident, "orig": orig}, "pins": take(), "props": []})
     rng.shuffle(nets)              # any order of bits, bits of different buses interleaved
     nets += dup                    # (kept in this order: base bit, base bit again, higher bits)
+    nets += tail
     if trigger == "glob":
         # a bus whose original name is a glob pattern matching the name of a bus declared before it
         k = len(cell["buses"])
@@ -448,7 +484,8 @@ def cell_tree(kw, cell):
                 name = nm_tree(kw, n["nm"])
             else:
                 b = cell["buses"][n["bus"]]
-                name = [kw("rename"), "%s_%d_" % (b["id"], n["idx"]), q("%s[%d]" % (b["orig"], n["idx"]))]
+                name = [kw("rename"), "%s_%d_" % (b["id"], n.get("iidx", n["idx"])),
+                        q("%s[%d]" % (b["orig"], n["idx"]))]
             nt = [kw("net"), name, [kw("joined")] + [pin_tree(kw, x) for x in n["pins"]]]
             nt += [prop_tree(kw, x) for x in n.get("props", [])]
             cont.append(nt)
@@ -863,8 +900,15 @@ def sanitized_key(s):
     return t.lower()
 
 
+# characters outside printable ASCII that the quantifier allows (no double quote, no line break): non-ASCII
+# letters and symbols (no non-ASCII DIGITS: str.isdigit / int() accept them, the model is ASCII there),
+# DEL and C0 controls.  Drawn only in netlists flagged rng._odd (8 %), because at the pinned commit the
+# reader rejects every such name (finding edif.reader.string_token_charset).
+ODDCH = "\u00e9\u00df\u03bb\u0436\u3042\u20ac\x7f\x01\x0b\x0c\x1f"
+
+
 def gen_name03(rng, used, kind="x", bus=False, scalar_net=False):
-    """a sibling name: non-empty printable ASCII, outside the pinned / open sub-domains.
+    """a sibling name: any characters but double quote / line break, outside the pinned sub-domains.
     `used`: the names of the scope so far (exact).  Names are deliberately REUSED across scopes: with
     probability 0.4 a name already handed out elsewhere in this netlist (rng._pool: a cell of another
     library, a port / instance / cable of another cell, a library, …) is taken again if it is free in
@@ -886,8 +930,13 @@ def gen_name03(rng, used, kind="x", bus=False, scalar_net=False):
             s = base + rng.choice(["[0]", "[12]", "_3_", ".q", "/x", "<1>", "$", "(", ")", " z", "_sdn_1_", "[1:0]", "]", "-b"])
         else:
             s = "".join(rng.choice(NAMECH + "-") for _ in range(rng.randint(1, 9)))
-        if not s or s[0] == "\\":
+        if getattr(rng, "_odd", False) and not from_pool and rng.random() < 0.3:
+            k = rng.randrange(len(s) + 1)
+            s = s[:k] + rng.choice(ODDCH) + s[k:]
+        if not s:
             continue
+        if s[0] == "\\" and bus:
+            continue        # bus cable with a leading backslash: pinned reader convention (trigger backslash_bus)
         if s in used:
             continue
         if not name_ok03(s, bus, scalar_net, kind):
@@ -921,12 +970,14 @@ def gen_props03(rng):
 
 
 def gen_recipe(rng, size="small", trigger=None):
-    """trigger: None | undefined_dir | one_pin_array | bitlike_scalar | amp_bus | glob | bracket_tail"""
+    """trigger: None | undefined_dir | one_pin_array | bitlike_scalar | amp_bus | glob | bracket_tail |
+    backslash_bus | old_name | odd_prop_value | odd_char"""
     S = {"small": dict(libs=(1, 2), leaf=(1, 2), mid=(1, 2), kids=3, ports=3, width=3),
          "medium": dict(libs=(1, 3), leaf=(1, 4), mid=(1, 5), kids=5, ports=4, width=4),
          "large": dict(libs=(2, 4), leaf=(2, 6), mid=(3, 9), kids=8, ports=6, width=8)}[size]
     nlibs = rng.randint(*S["libs"])
     rng._pool = []          # names handed out so far in this netlist (reused across scopes by gen_name03)
+    rng._odd = trigger is None and rng.random() < 0.08
     used_l = set()
     libs = [{"name": gen_name03(rng, used_l), "data": {}, "definitions": [], "_used": set()} for _ in range(nlibs)]
     order = []      # (lib index, def dict) in creation (dependency) order
@@ -938,7 +989,8 @@ def gen_recipe(rng, size="small", trigger=None):
             D["ports"].append({"name": gen_name03(rng, up), "dir": rng.choice(["IN", "OUT", "INOUT"]), "width": w,
                                "scalar": w == 1, "lower": (rng.randint(0, 7) if w > 1 and rng.random() < 0.4 else 0),
                                "downto": rng.random() < 0.8,
-                               "data": ({"pk": rng.choice([1, "v", True])} if rng.random() < 0.15 else {})})
+                               "data": ({"pk": rng.choice([1, "v", True])} if rng.random() < 0.15 else
+                                        ({"EDIF.properties": gen_props03(rng)} if rng.random() < 0.05 else {}))})
 
     def newdef(li, leaf):
         L = libs[li]
@@ -986,7 +1038,10 @@ def gen_recipe(rng, size="small", trigger=None):
                 wires.append([free.pop() for _ in range(min(k, len(free)))])
             D["cables"].append({"name": gen_name03(rng, uc, kind="net", bus=arr, scalar_net=not arr), "scalar": not arr,
                                 "lower": (rng.choice([0, 0, 1, 3, 31]) if arr else 0), "downto": rng.random() < 0.8,
-                                "data": {}, "wires": wires})
+                                "data": ({"EDIF.properties": gen_props03(rng)} if rng.random() < 0.05 else {}),
+                                "wires": wires})
+        if rng.random() < 0.05:
+            D["data"]["EDIF.properties"] = gen_props03(rng)     # not written by the composer; not in the C03 view
         apply_trigger03(rng, D, uc, trigger)
     # distribute to libraries, then shuffle declaration order everywhere
     pos = {}
@@ -1035,6 +1090,20 @@ def apply_trigger03(rng, D, uc, trigger):
             uc.update([a, a + "*"])
             D["cables"].append({"name": a, "scalar": False, "lower": 0, "downto": True, "data": {}, "wires": [[], []]})
             D["cables"].append({"name": a + "*", "scalar": False, "lower": 0, "downto": True, "data": {}, "wires": [[], []]})
+    elif trigger == "backslash_bus":
+        n = "\\" + rng.choice(LET) + rng.choice(LET)
+        if n not in uc:
+            uc.add(n)
+            D["cables"].append({"name": n, "scalar": False, "lower": 0, "downto": True, "data": {}, "wires": [[], []]})
+    elif trigger == "old_name":
+        D["data"]["oldName"] = "X" + rng.choice(LET)      # legacy key: the writer then emits (rename id "old") inside cellref
+    elif trigger == "odd_prop_value" and D["instances"]:
+        k = rng.choice(D["instances"])
+        k["data"].setdefault("EDIF.properties", []).append(
+            {"identifier": "p" + rng.choice(LET), "value": rng.choice([{"float": "1.5"}, None])})
+    elif trigger == "odd_char" and D["ports"]:
+        p = rng.choice(D["ports"])
+        p["name"] = p["name"] + rng.choice(ODDCH)
     elif trigger == "bracket_tail":
         n = "t" + rng.choice(LET) + "["
         if n not in uc:
